@@ -1,4 +1,5 @@
 PROP = {
+    "confirm_scenarios": ['timed', 'noread'],
     "coq": ["C07", "C07b"],
     "exhaustive": False,
     "rule": "timed (REAL time, timeout 150 ms; thorough: 100/150/250 ms): one public client call (8 small read/write operations, valid "
